@@ -1,4 +1,6 @@
 #![cfg_attr(coverage_nightly, feature(coverage_attribute))]
+// `truc_verif` guards verification hooks (see data.rs); it is never set in normal builds.
+#![allow(unexpected_cfgs)]
 
 pub mod convert;
 pub mod data;
